@@ -37,15 +37,18 @@ func draw(t *rapid.T) *pbt.Case {
 	switch rapid.IntRange(0, 3).Draw(t, "stacks") {
 	case 0:
 		// trees without any stack
-		g = g.Without("new", "newf", "assertf", "wrap", "wrapf", "stack", "handleassert", "assertwrap", "newfw", "newfwsuffix", "join", "pkgnew", "pkgstack", "pkgwrap", "sentinel", "unimpl")
+		g = g.Without(stackKinds...).Without("sentinel", "unimpl")
 	case 1:
 		g = g.Boost(3, "stack", "wrap", "new", "pkgstack", "domain", "domnew")
 	}
 	g.WMulti = 2
 	c.Spec = g.Draw(t, rapid.IntRange(1, maxB).Draw(t, "budget"))
+	gen.SprinkleRepeats(t, c.Spec)
 	c.SetInt("decoded", rapid.IntRange(0, 1).Draw(t, "decoded"))
 	return c
 }
+
+var stackKinds = gen.StackCapturingKinds()
 
 func lastPathComponent(s string) string {
 	if i := strings.LastIndexByte(s, '/'); i >= 0 {
@@ -55,9 +58,10 @@ func lastPathComponent(s string) string {
 }
 
 func check(c *pbt.Case, r *pbt.R) {
-	e := gen.Build(c.Spec)
+	e0 := gen.Build(c.Spec)
+	e := e0
 	if c.Int("decoded") == 1 {
-		e, _ = wire.Hop(e)
+		e, _ = wire.Hop(e0)
 	}
 	ev, extras := errors.BuildSentryReport(e)
 	if ev == nil {
@@ -69,6 +73,18 @@ func check(c *pbt.Case, r *pbt.R) {
 	prefix := ""
 	if f, l, _, ok := errors.GetOneLineSource(e); ok {
 		prefix = fmt.Sprintf("%s:%d: ", f, l)
+	}
+	// The source location comes from the case description where it can:
+	// the first frame recorded by the innermost frame-carrying layer of
+	// the locally built error (source locations survive transfer, C11).
+	if mf, ml, has, known := gen.ModelSource(c.Spec, e0); known {
+		want := ""
+		if has {
+			want = fmt.Sprintf("%s:%d: ", mf, ml)
+		}
+		if prefix != want {
+			r.Failf("the message is not preceded by the innermost recorded source file:line", "got prefix %q want %q\nspec %s", prefix, want, c.Spec)
+		}
 	}
 	head := prefix + verbose + "\n-- report composition:\n"
 	if !strings.HasPrefix(ev.Message, head) {
